@@ -15,21 +15,21 @@ import (
 
 // Verifier holds the loaded program and all program-wide tables.
 type Verifier struct {
-	RepoDir string
-	Prog    *ssa.Program
-	Pkgs    []*packages.Package
-	SPkgs   map[string]*ssa.Package // by package name ("wire", "main")
-	ModPkgs map[*types.Package]bool // packages whose bodies are verified
-	DB      *SpecDB
-	U       *Universe
-	Funcs   map[string]*ssa.Function // key "pkg:RelString"
-	FuncKey map[*ssa.Function]string
-	AllFns  []*ssa.Function
-	ModSets map[*ssa.Function]map[string]bool
+	RepoDir        string
+	Prog           *ssa.Program
+	Pkgs           []*packages.Package
+	SPkgs          map[string]*ssa.Package // by package name ("wire", "main")
+	ModPkgs        map[*types.Package]bool // packages whose bodies are verified
+	DB             *SpecDB
+	U              *Universe
+	Funcs          map[string]*ssa.Function // key "pkg:RelString"
+	FuncKey        map[*ssa.Function]string
+	AllFns         []*ssa.Function
+	ModSets        map[*ssa.Function]map[string]bool
 	GlobalsWritten map[*ssa.Global]bool
-	ImplCache map[string][]int
+	ImplCache      map[string][]int
 	TypesByPkgName map[string]*types.Package
-	SpecFiles []string
+	SpecFiles      []string
 }
 
 func loadProgram(repo string, specFiles []string) (*Verifier, error) {
@@ -149,6 +149,7 @@ func loadProgram(repo string, specFiles []string) (*Verifier, error) {
 			v.DB.Ghosts[k] = d
 		}
 		v.DB.FieldInvs = append(v.DB.FieldInvs, tmp.FieldInvs...)
+		v.DB.NewInvs = append(v.DB.NewInvs, tmp.NewInvs...)
 		v.DB.Axioms = append(v.DB.Axioms, tmp.Axioms...)
 		v.DB.NLibEntries += tmp.NLibEntries
 		v.DB.NAxiom += tmp.NAxiom
